@@ -63,7 +63,8 @@ Proof.
     destruct (class_alloc (class_bc c) (chunk_of psh (class_bs c) (class_bc c)) (cl_lookup c (h_classes h)) e_span)
       as [[[cs' [s0 i]] uf]| | | |]; try discriminate.
     destruct S as (_ & Nin & Ri). simpl in Ri.
-    destruct (uf && range_in_use psh h e_span 1); [discriminate|]. inversion E; subst.
+    destruct (uf && range_in_use psh h e_span 1); [discriminate|].
+    injection E as E1 E2 E3 E4. subst h' s off us.
     destruct (block_geometry c s i V Ri) as (G1 & G2 & G3 & _).
     split; [assumption|]. split; [assumption|]. split; [assumption|]. split; [assumption|].
     unfold block_offset. replace (SPAN_HEADER_SIZE + i * class_bs c - SPAN_HEADER_SIZE) with (i * class_bs c) by ring.
@@ -75,10 +76,10 @@ Proof.
     destruct ((e_count <? large_span_count size) || (LARGE_CLASS_COUNT <? e_count) || range_in_use psh h e_span e_count) eqn:Q;
       [discriminate|].
     apply orb_false_elim in Q. destruct Q as [Q _]. apply orb_false_elim in Q. destruct Q as [Q _].
-    apply Z.ltb_ge in Q. inversion HA; subst.
+    apply Z.ltb_ge in Q. injection HA as E1 E2 E3 E4. subst h' s off us.
     split; [apply Fit; assumption|]. split; [apply header_aligned|]. split; [lia | reflexivity].
   - destruct (range_in_use psh h e_span (big_units psh (BHuge (huge_pages psh size)))); [discriminate|].
-    inversion HA; subst. destruct (huge_fits psh size Hp H0 Hw) as [F _].
+    injection HA as E1 E2 E3 E4. subst h' s off us. destruct (huge_fits psh size Hp H0 Hw) as [F _].
     split; [assumption|]. split; [apply header_aligned|]. split; [lia | reflexivity].
 Qed.
 
